@@ -890,4 +890,40 @@ theorem gs_others_remote_not_all :
   have := h ⟨0, false, [0, 8], [(0, ⟨false, 1, 2, [0], -1⟩)], [(0, .ok [(0, 16)])]⟩ rfl (0, [(0, 16), (8, 2)]) (by decide)
   revert this; decide
 
+/-! ### Round 8 final: the Prop reading of the whole fault clause list -/
+
+/-- `holdsF` (what the driver evaluates on every `tf` case) is true exactly when: every CID of the case satisfies
+the agreement, strict agreement, pinned-needs-confirmation (Status and every listing), fault-reporting, truth and
+known-status clauses; every listing is complete and well-formed; when the daemon's listings are sane every listing
+obeys the filter law; and the PinInfo bits / CID lists of both views are right. -/
+theorem holdsF_iff (i : FInput) (o : OutputF) : holdsF i o = true ↔
+    (∀ r ∈ i.recs, agreeF i o r = true ∧ agreeStrictF i o r = true ∧ truthPinnedS i o r = true ∧
+        (∀ e ∈ o.lists, truthPinnedL i e.2 r = true) ∧ faultReported i o r = true ∧ truthF i o r = true ∧
+        knownF r (viewSF o r) = true ∧ knownF r (viewLF o r) = true) ∧
+    (∀ e ∈ o.lists, completeF i o e = true ∧ listingWfF i e.2 = true ∧
+        ((∀ r ∈ i.recs, saneListing r = true) → filterLawF i o e = true)) ∧
+    (∀ e ∈ o.eachInfo, infoOk ((lookup o.each e.1).getD 0) e.2 = true) ∧
+    (∀ e ∈ o.listInfo, infoOk ((lookup (list0F o) e.1).getD 0) e.2 = true) ∧
+    o.eachInfo.map (·.1) = o.each.map (·.1) ∧ o.listInfo.map (·.1) = (list0F o).map (·.1) := by
+  unfold holdsF clausesF
+  simp only [List.all_cons, List.all_nil, Bool.and_true, Bool.and_eq_true, List.all_eq_true, Bool.or_eq_true,
+    Bool.not_eq_true', beq_iff_eq]
+  constructor
+  · rintro ⟨h1, h2, h3, h4, h5, h6, h7, h8, h9, ⟨⟨h10, h11⟩, h12⟩, h13⟩
+    refine ⟨fun r hr => ⟨h1 r hr, h2 r hr, (h3 r hr).1, (h3 r hr).2, h4 r hr, h7 r hr, (h8 r hr).1, (h8 r hr).2⟩,
+      fun e he => ⟨h5 e he, h9 e he, fun hs => ?_⟩, h10, h11, h12, h13⟩
+    rcases h6 with h6 | h6
+    · have : (i.recs.all saneListing) = true := List.all_eq_true.mpr hs
+      rw [this] at h6; cases h6
+    · exact h6 e he
+  · rintro ⟨hr, hl, h10, h11, h12, h13⟩
+    refine ⟨fun r h => (hr r h).1, fun r h => (hr r h).2.1, fun r h => ⟨(hr r h).2.2.1, (hr r h).2.2.2.1⟩,
+      fun r h => (hr r h).2.2.2.2.1, fun e h => (hl e h).1, ?_, fun r h => (hr r h).2.2.2.2.2.1,
+      fun r h => (hr r h).2.2.2.2.2.2, fun e h => (hl e h).2.1, ⟨⟨h10, h11⟩, h12⟩, h13⟩
+    cases hs : i.recs.all saneListing with
+    | false => exact Or.inl rfl
+    | true => exact Or.inr (fun e h => (hl e h).2.2 (List.all_eq_true.mp hs))
+
+example : holdsF ⟨0, false, false, false, false, []⟩ ⟨[], [], [(0, [])], []⟩ = true := by decide
+
 end CV.C06
